@@ -160,7 +160,16 @@ const vfCoreRule = "two real KCP state machines joined by a datagram bag under a
 // C01: the reader sees a prefix of what was written.
 func vfC01core(c *hx.Ctx) {
 	K := hx.Pick(c, 6, 8)
-	vfRunGrid(c, vfCoreGrid(!c.Quick(), K, vfAllFates), "C01:")
+	grid := vfCoreGrid(!c.Quick(), K, vfAllFates)
+	// fragment-count boundary of raw message mode: 255 fragments (the maximum), 256 (must be refused), with a
+	// reader that polls while the message is only partly received
+	for _, w := range [][]int{{255, 3}, {256, 2}, {254, 255}} {
+		cf := vfSimCfg{Mode: "update", Stream: false, SndWnd: [2]int{300, 300}, RcvWnd: [2]int{300, 300}, Mtu: 25, NoDelay: [4]int{1, 10, 2, 1},
+			Delay: 10, K: hx.Pick(c, 3, 4), Fates: vfAllFates, HorizonMs: 600000, PauseAfter: -1}
+		cf.Writes[0] = w
+		grid = append(grid, vfNamedCfg{fmt.Sprintf("frg-boundary/update/stream=false/wnd=300/mtu=25/writes=%v", w), cf})
+	}
+	vfRunGrid(c, grid, "C01:")
 }
 
 // C02: a healed network always drains the backlog.
